@@ -223,13 +223,19 @@ HexOrientationAgrees(s, c, r) ==
 (* an actual cell: orth(o1, o2) is the direction whose halfface is met      *)
 (* right after the o2-halfface when walking around the o1-halfface.         *)
 HexOrthAgrees(s, c, orth, oppo) ==
-  LET h == At(s.cells, c) IN
+  LET h  == At(s.cells, c)
+      AR == [o \in 1 .. 6 |-> AroundSeq(s, c, h[o])]        \* computed once per direction
+      nxt(o1, g) == LET ar == AR[o1]
+                        is == {i \in DOMAIN ar : ar[i] = {g}}
+                    IN IF Cardinality(is) # 1 THEN -1
+                       ELSE LET nx == ar[(TheElem(is) % Len(ar)) + 1] IN IF Cardinality(nx) = 1 THEN TheElem(nx) ELSE -1
+  IN
   /\ \A o \in 0 .. 5 : oppo[o + 1] \in 0 .. 5 /\
         Rng(HFVerts(s, h[oppo[o + 1] + 1])) \cap Rng(HFVerts(s, h[o + 1])) = {}
   /\ \A o1, o2 \in 0 .. 5 :
         LET o3 == orth[o1 + 1][o2 + 1] IN
         IF o1 \div 2 = o2 \div 2 THEN o3 = 6
-        ELSE o3 \in 0 .. 5 /\ NextAround(s, c, h[o1 + 1], h[o2 + 1]) = h[o3 + 1]
+        ELSE o3 \in 0 .. 5 /\ nxt(o1 + 1, h[o2 + 1]) = h[o3 + 1]
 
 (* hex_vertices: the documented cube pattern up to a rotation about the     *)
 (* first axis                                                              *)
